@@ -28,6 +28,7 @@ import (
 
 type writerKey struct{ p Ptr }
 type atomicKey struct{ p Ptr }
+type poolKey struct{ p Ptr }
 
 type vclock []int32
 
